@@ -142,6 +142,26 @@ def run(prop, tier, seed):
             runs.append(dict(id=i + 1, threads=rng.choice((1, 1, 2, 4)), tick_ns=rng.choice(TICKS),
                              t0_secs=rng.choice((0, 1_600_000_000)), lags=lags, cmds=cmds))
         validate_runs(chk, prop, b, runs, "random-driver", wd, f"b3_{bn}")
+    # 4. C08: a second thread issues scheduling requests through a Scheduler clone while the main thread steps;
+    #    the request is logged before and after the call and TLC places its atomic effect (XSchedule) in between
+    if prop == "C08":
+        b = BENCHES["chrono"]
+        runs = []
+        for i in range(600 if thorough else 80):
+            cmds = [dict(c="sched", cls="ev", target="m1", abs=True, d=t, kind="once", per=0, slot="k1", prog=1)
+                    for t in range(2, 14, 2)]
+            cmds += [dict(c="step") if rng.random() < 0.7 else dict(c="step_until", abs=False, d=rng.randint(1, 2))
+                     for _ in range(8)]
+            xs = []
+            for _ in range(10):
+                kind = rng.choice(["once", "keyed", "keyed", "periodic", "kperiodic"])
+                absd = rng.random() < 0.7
+                xs.append(dict(target=rng.choice(["m1", "m2"]), abs=absd, d=rng.randint(1, 13) if absd else rng.randint(0, 2),
+                               kind=kind, per=rng.randint(0, 3) if "periodic" in kind else 0, slot="k3", prog=1))
+            runs.append(dict(id=i + 1, threads=rng.choice((1, 4)), tick_ns=1, t0_secs=0, lags=[], cmds=cmds, xsched=xs,
+                             x_gap_us=rng.choice((0, 20, 50)), delay_point=rng.choice((40, 40, 42, 43, 0)),
+                             delay_us=rng.choice((100, 300))))
+        validate_runs(chk, prop, b, runs, "scheduling thread racing step()", wd, "race")
     chk.assumptions = TRUSTED + [
         "mailboxes are abstracted to one FIFO per (recipient, sending task); capacity effects are decided by "
         "Bench.tla (C02-C04)",
